@@ -129,8 +129,8 @@ CHECKS = {
               "call of either handler delivers carries the transaction id of that call and the kind the table gives for its condition (or "
               "is the abandon callback of a fault during a cancel exchange, characterised exactly); an abandon callback is the newest event "
               "of its call, at most one, handler idle and fresh afterwards, nothing queued earlier is dropped; the sender delivers at most "
-              "one fault callback per call; the receiver's Transaction-Finished after a cancel callback reports that condition. "
-              "Fixed findings: F15, F22, F25-F27, F34 (see DESIGN.md 14).",
+              "one fault callback per call; the receiver's Transaction-Finished after a cancel callback reports exactly that condition. "
+              "Fixed findings: F15, F22, F25-F27, F34, F35 (see DESIGN.md 14).",
               "6/C14"),
     "C15": _c("Coq proof (gating invariant over both whole state machines by compositional reasoning + parameter lemmas) + correspondence + indication oracle",
               "Proof (props/C15.v): every event any call adds is gated by its switch (all inputs, all states); Metadata-Recv / "
